@@ -175,3 +175,55 @@ def iTxResult (steps : List MStep) (st : Store) (esc : Nat) : Option (Bool × St
   else none
 
 end FxVerif.Model.C08Dep
+
+namespace FxVerif.Model.C08Dep
+open FxVerif.Model.C08Cache
+open FxVerif.Gen.C08e
+
+/-! ### transactions with sub-call frames through the interpreted source -/
+
+/-- `runTxF` interpreted: also returns the state at the point of failure -/
+def iRunTxF : List MStep → ObjSt → Nat → Option ((ObjSt × Nat) × Bool)
+  | [], s, esc => some ((s, esc), true)
+  | .evm p pay :: rest, s, esc =>
+    match iRunProg p s with
+    | some (true, s1) => if esc < pay then some ((s1, esc), false) else iRunTxF rest s1 (esc - pay)
+    | some (false, s1) => some ((s1, esc), false)
+    | none => none
+  | .nested p pay gain :: rest, s, esc =>
+    match iNested p s.o.store with
+    | some (true, st) =>
+      if esc < pay then some ((s, esc), false)
+      else iRunTxF rest { s with o := { s.o with store := st } } (esc - pay + gain)
+    | some (false, _) => some ((s, esc), false)
+    | none => none
+
+/-- `runTxX` interpreted.  A frame = `Snapshot` (the journal length and the native store at that moment), the group, and on
+failure `RevertToSnapshot`: the storage entries appended since the snapshot are undone by the regenerated
+`storageChange.Revert` in the regenerated order (`iRevertTo`), then `nativeChange.Revert` puts the native store — and with
+it the escrow — back (C09's model of the native snapshot) -/
+def iRunTxX : List XStep → ObjSt → Nat → Option (Option (ObjSt × Nat))
+  | [], s, esc => some (some (s, esc))
+  | .plain st :: rest, s, esc =>
+    match iRunTx [st] s esc with
+    | some (some (s1, e1)) => iRunTxX rest s1 e1
+    | some none => some none
+    | none => none
+  | .attempt g :: rest, s, esc =>
+    match iRunTxF g s esc with
+    | some ((s1, e1), true) => iRunTxX rest s1 e1
+    | some ((sf, _), false) =>
+      match iRevertTo (sf.journal.take (sf.journal.length - s.journal.length)) s.journal sf.o with
+      | some s' => iRunTxX rest { s' with o := { s'.o with store := s.o.store } } esc
+      | none => none
+    | none => none
+
+def iTxResultX (steps : List XStep) (st : Store) (esc : Nat) : Option (Bool × Store × Nat) :=
+  if commit_nativeStoreFirst then
+    match iRunTxX steps ⟨{ store := st }, []⟩ esc with
+    | some (some (s, esc')) => (iCommit s).map fun s2 => (true, s2.o.store, esc')
+    | some none => some (false, st, esc)
+    | none => none
+  else none
+
+end FxVerif.Model.C08Dep
